@@ -359,3 +359,39 @@ type LenReader struct{ *ChunkReader }
 
 // Len returns the number of bytes not yet delivered.
 func (l LenReader) Len() int { return len(l.Data) - l.pos }
+
+// SeekReader is a ChunkReader that can also Seek (as files and in-memory readers can); FailSeekAt >= 0 makes the
+// n-th Seek call fail (and leaves the position where it was).
+type SeekReader struct {
+	*ChunkReader
+	FailSeekAt int
+	Seeks      *int // number of Seek calls so far
+	Failed     *bool
+}
+
+// Seek implements io.Seeker over the delivered data.
+func (s SeekReader) Seek(offset int64, whence int) (int64, error) {
+	n := *s.Seeks
+	*s.Seeks = n + 1
+	if s.FailSeekAt == n {
+		*s.Failed = true
+		return int64(s.pos), fmt.Errorf("seek failed")
+	}
+	var abs int64
+	switch whence {
+	case io.SeekStart:
+		abs = offset
+	case io.SeekCurrent:
+		abs = int64(s.pos) + offset
+	default:
+		abs = int64(len(s.Data)) + offset
+	}
+	if abs < 0 {
+		return int64(s.pos), fmt.Errorf("negative position")
+	}
+	if abs > int64(len(s.Data)) {
+		abs = int64(len(s.Data))
+	}
+	s.ChunkReader.pos = int(abs)
+	return abs, nil
+}
